@@ -6,11 +6,15 @@ from harness.common import framework
 from harness.props import dev_ctl, c07_cyc, c07, c10_unclaimed
 
 PROP = "C10"
-LEAN_MODULES = ["LunaVerif.Props.C10"] + dev_ctl.CYC_MODULES + c07.STREAM_MODULES
+# Lemmas/C10Mps.lean: the theorems of Props/C10.lean over coreM / stepM (every control max packet size: the model drv_dev steps
+# and the event-level co-simulation runs at 8 / 16 / 32 / 64)
+LEAN_MODULES = ["LunaVerif.Props.C10"] + dev_ctl.CYC_MODULES + c07.STREAM_MODULES + ["LunaVerif.Lemmas.C10Mps"]
 DRIVER = dev_ctl.DRIVER
 REQUIRED_THEOREMS = ["unsupported_never_answered", "unsupported_first_request_stalled", "unsupported_setup_establishes_handling", "handling_step",
                      "unhandled_stalls", "unhandled_waits_silently", "unclaimed_request_stalls", "cycle_refines_event",
-                     "cycle_refines_event_run"]
+                     "cycle_refines_event_run",
+                     "coreM_ctl", "stepM_ctl", "unsupported_never_answered_mps", "handling_step_mps",
+                     "unsupported_setup_establishes_handling_mps"]
 RULE = dev_ctl.RULE + dev_ctl.CYC_RULE + c07.RULE_SYS + c10_unclaimed.RULE
 ASSUMPTIONS = [a.replace("no skiplist", "no skiplist (the cases compared with the model; the fallback layouts of "
                          "c10_unclaimed.py have skiplists and are judged by the monitor only)")
